@@ -296,116 +296,20 @@ func applyReal(w live, o op) error {
 	panic("bad op for world")
 }
 
-// ---- extended dump -------------------------------------------------------------------
 
-func guard(f func() string) (out string) {
-	cls, msg := kit.Catch(func() { out = f() })
-	if cls != "" {
-		if i := strings.IndexByte(msg, '\n'); i > 0 {
-			msg = msg[:i]
-		}
-		return "PANIC(" + cls + ": " + msg + ")"
-	}
-	return out
-}
+// ---- observation ---------------------------------------------------------------------
 
-var dumpOpts = &wk.DumpOptions{IDs: universe, Queries: wk.NamedQueries(queries)}
+var namedQueries = wk.NamedQueries(queries)
 
-func fstr(f b6.Feature) string {
-	if f == nil {
-		return "nil"
-	}
-	return wk.FeatureString(f, true, true)
-}
+// observe = lean transcript (see lean.go) of everything the world answers.
+func observe(w b6.World) []byte { return transcript(w, universe, namedQueries) }
 
-// xdump = worldkit dump + the complete rendering of every feature handed out by
-// every query (the features found by a query must not change either).
-func xdump(w b6.World) wk.Dump {
-	d := wk.DumpWorld(w, dumpOpts)
-	for _, q := range dumpOpts.Queries {
-		q := q
-		d["xfind:"+q.Name] = guard(func() string {
-			var out []string
-			fs := w.FindFeatures(q.Query)
-			for fs.Next() {
-				out = append(out, fstr(fs.Feature()))
-			}
-			return strings.Join(out, " | ")
-		})
-	}
-	for _, id := range universe {
-		id := id
-		s := id.String()
-		d["xrefs:"+s] = guard(func() string {
-			var out []string
-			fs := w.FindReferences(id)
-			for fs.Next() {
-				out = append(out, fstr(fs.Feature()))
-			}
-			sort.Strings(out)
-			return strings.Join(out, " | ")
-		})
-		d["xrels:"+s] = guard(func() string {
-			var out []string
-			fs := w.FindRelationsByFeature(id)
-			for fs.Next() {
-				out = append(out, fstr(fs.Feature()))
-			}
-			sort.Strings(out)
-			return strings.Join(out, " | ")
-		})
-		if id.Type == b6.FeatureTypePoint {
-			d["xareas:"+s] = guard(func() string {
-				var out []string
-				fs := w.FindAreasByPoint(id)
-				for fs.Next() {
-					out = append(out, fstr(fs.Feature()))
-				}
-				sort.Strings(out)
-				return strings.Join(out, " | ")
-			})
-			d["xtrav:"+s] = guard(func() string {
-				var out []string
-				ss := w.Traverse(id)
-				for ss.Next() {
-					sg := ss.Segment()
-					out = append(out, fmt.Sprintf("%s[%d-%d]", fstr(sg.Feature), sg.First, sg.Last))
-				}
-				sort.Strings(out)
-				return strings.Join(out, " | ")
-			})
-		}
-	}
-	d["xeach"] = guard(func() string {
-		var out []string
-		var mu sync.Mutex
-		err := w.EachFeature(func(f b6.Feature, g int) error {
-			s := fstr(f)
-			mu.Lock()
-			out = append(out, s)
-			mu.Unlock()
-			return nil
-		}, &b6.EachFeatureOptions{Goroutines: 1})
-		if err != nil {
-			return "err:" + err.Error()
-		}
-		sort.Strings(out)
-		return strings.Join(out, " | ")
-	})
-	d["tokens"] = guard(func() string {
-		t := append([]string{}, w.Tokens()...)
-		sort.Strings(t)
-		return strings.Join(t, " ")
-	})
-	return d
-}
-
-func dumpHash(d wk.Dump) string {
-	h := sha256.Sum256([]byte(d.String()))
+func hash(b []byte) string {
+	h := sha256.Sum256(b)
 	return hex.EncodeToString(h[:8])
 }
 
-// sectionKind: "find", "xfind", "feat", ... + the feature type it concerns.
+// sectionKind: section name + the feature type it concerns ("refs:point", "find", ...).
 func sectionKind(diffLine string) string {
 	sec := wk.SectionClass(diffLine)
 	rest := diffLine[len(sec):]
@@ -417,23 +321,82 @@ func sectionKind(diffLine string) string {
 	return sec
 }
 
+func kinds(diffs []string) []string {
+	seen := map[string]bool{}
+	var out []string
+	for _, d := range diffs {
+		if k := sectionKind(d); !seen[k] {
+			seen[k] = true
+			out = append(out, k)
+		}
+	}
+	sort.Strings(out)
+	return out
+}
+
+// ---- live world vs reference model (memoised per process) -----------------------------
+
+// The worldkit dump and the reference's expected dump are pure functions of
+// (observable live state, model state); the lean transcript determines the
+// former, so each distinct pair is compared once per worker process.
+type verdict struct {
+	kinds []string // differing section kinds (empty = equal)
+	text  string
+}
+
+var (
+	refDumps = map[string]wk.Dump{}
+	verdicts = map[string]*verdict{}
+	liveOpts = &wk.DumpOptions{IDs: universe, Queries: namedQueries, Skip: []string{"trav:"}}
+)
+
+func compareWithModel(w b6.World, obs []byte, m *model, kind worldKind) *verdict {
+	mk := m.spec.String()
+	key := shortKind(kind) + "\x00" + mk + "\x00" + hash(obs)
+	if v, ok := verdicts[key]; ok {
+		return v
+	}
+	want, ok := refDumps[shortKind(kind)+mk]
+	if !ok {
+		want = wk.NewRef(m.spec).ExpectedDump(universe, queries, true, true)
+		if kind == kindTags {
+			// documented: MutableTagsOverlayWorld does not update the search index
+			for k := range want {
+				if strings.HasPrefix(k, "find:") {
+					delete(want, k)
+				}
+			}
+		}
+		refDumps[shortKind(kind)+mk] = want
+	}
+	got := wk.DumpWorld(w, liveOpts)
+	diffs := wk.Diff(got, want, false)
+	v := &verdict{kinds: kinds(diffs), text: strings.Join(diffs, "\n")}
+	if ps := got.Panics(); len(ps) > 0 && len(diffs) == 0 {
+		v.kinds = []string{"panic"}
+		v.text = strings.Join(ps, "\n")
+	}
+	verdicts[key] = v
+	return v
+}
+
 // ---- histories ----------------------------------------------------------------------
 
 type caseSpec struct {
-	kind  worldKind
-	pre   []int
+	kind   worldKind
+	pre    []int
 	snapAt int // -1: no second snapshot; j: second Snapshot before post op j
-	first int // first post op
+	first  int // first post op
 }
 
 type space struct {
-	cases   []caseSpec
-	ops     map[worldKind][]op
-	depth   int
+	cases    []caseSpec
+	ops      map[worldKind][]op
+	depth    int
 	baseOnce sync.Once
-	base    b6.World
-	baseRef *model
-	baseDump wk.Dump
+	base     b6.World
+	baseRef  *model
+	baseObs  []byte
 }
 
 func buildCases(ops map[worldKind][]op, depth int) []caseSpec {
@@ -467,38 +430,34 @@ func (sp *space) Len() int64 { return int64(len(sp.cases)) }
 
 type snap struct {
 	w        b6.World
-	baseline wk.Dump
+	baseline []byte
 	at       string // history at creation
 }
 
 type run struct {
-	r       *kit.Result
-	sp      *space
-	kind    worldKind
-	hist    []string
-	w       live
-	m       *model
-	snaps   []snap
+	r                *kit.Result
+	sp               *space
+	kind             worldKind
+	hist             []string
+	applied          []op
+	w                live
+	m                *model
+	snaps            []snap
 	changedSinceSnap bool
-	errs    []string
+	errs             []string
+	reported         map[string]bool // classes already reported in this case
 }
 
 func (x *run) history() string { return strings.Join(x.hist, " · ") }
 
-func (x *run) step(o op) {
-	var err error
-	cls, msg := kit.Catch(func() { err = applyReal(x.w, o) })
-	x.hist = append(x.hist, o.name)
-	if cls != "" {
-		x.r.Violate("op-panic:"+opClass(o)+":"+cls, "%s on %s: %s\nhistory: %s", o.name, x.kind, msg, x.history())
+// violate reports the first violation of a class per case in full and counts the rest.
+func (x *run) violate(class, format string, a ...interface{}) {
+	x.r.Count("violations:"+class, 1)
+	if x.reported[class] {
+		return
 	}
-	if err != nil {
-		x.errs = append(x.errs, o.name+": "+err.Error())
-	}
-	if x.m.apply(o) && len(x.snaps) > 0 {
-		x.changedSinceSnap = true
-	}
-	x.r.Transitions++
+	x.reported[class] = true
+	x.r.Violate(class, format, a...)
 }
 
 func opClass(o op) string {
@@ -511,46 +470,46 @@ func opClass(o op) string {
 	return "RemoveTag"
 }
 
-func (x *run) snapshot(check bool) {
+func (x *run) step(o op) {
+	var err error
+	cls, msg := kit.Catch(func() { err = applyReal(x.w, o) })
+	x.hist = append(x.hist, o.name)
+	x.applied = append(x.applied, o)
+	if cls != "" {
+		x.violate("op-panic:"+shortKind(x.kind)+":"+opClass(o)+":"+cls, "%s on %s: %s\nhistory: %s", o.name, x.kind, msg, x.history())
+	}
+	if err != nil {
+		x.errs = append(x.errs, o.name+": "+err.Error())
+	}
+	if x.m.apply(o) && len(x.snaps) > 0 {
+		x.changedSinceSnap = true
+	}
+	x.r.Transitions++
+}
+
+// snapshot takes a snapshot and its baseline transcript. At canonical points it
+// also demands that the snapshot is a snapshot of the state the live world had.
+func (x *run) snapshot(canonical bool) {
+	var before []byte
+	if canonical {
+		before = observe(x.w)
+	}
 	var s b6.World
 	cls, msg := kit.Catch(func() { s = x.w.Snapshot() })
 	x.hist = append(x.hist, "Snapshot")
 	if cls != "" {
-		x.r.Violate("Snapshot:panic:"+cls, "%s: %s\nhistory: %s", x.kind, msg, x.history())
+		x.violate("Snapshot:panic:"+shortKind(x.kind)+":"+cls, "%s: %s\nhistory: %s", x.kind, msg, x.history())
 		return
 	}
 	x.r.Transitions++
-	sn := snap{w: s, baseline: xdump(s), at: x.history()}
+	sn := snap{w: s, baseline: observe(s), at: x.history()}
 	x.snaps = append(x.snaps, sn)
-	if check {
-		// the snapshot is a snapshot of the state the live world had
-		x.compareRef(sn.baseline, "snapshot-initial", fmt.Sprintf("snapshot #%d at creation", len(x.snaps)))
-	}
-}
-
-// compareRef compares a dump with the reference model's expected answers.
-func (x *run) compareRef(got wk.Dump, classPrefix, what string) {
-	want := wk.NewRef(x.m.spec).ExpectedDump(universe, queries, true, true)
-	if x.kind == kindTags {
-		// documented: MutableTagsOverlayWorld does not update the search index
-		for k := range want {
-			if strings.HasPrefix(k, "find:") {
-				delete(want, k)
+	if canonical {
+		if diffs := transcriptDiff(before, sn.baseline); len(diffs) > 0 {
+			for _, k := range kinds(diffs) {
+				x.violate(fmt.Sprintf("snapshot-differs-from-live-at-creation:%s:%s", shortKind(x.kind), k), "snapshot #%d of %s does not answer as the live world did immediately before Snapshot() (A: live before, B: snapshot)\nhistory: %s\n%s", len(x.snaps), x.kind, x.history(), strings.Join(diffs, "\n"))
 			}
 		}
-	}
-	diffs := wk.Diff(got, want, false)
-	if len(diffs) == 0 {
-		return
-	}
-	seen := map[string]bool{}
-	for _, d := range diffs {
-		c := sectionKind(d)
-		if seen[c] {
-			continue
-		}
-		seen[c] = true
-		x.r.Violate(fmt.Sprintf("%s:%s:%s", classPrefix, shortKind(x.kind), c), "%s of %s differs from the reference model (A: real, B: reference)\nhistory: %s\nerrors returned: %v\n%s", what, x.kind, x.history(), x.errs, strings.Join(diffs, "\n"))
 	}
 }
 
@@ -561,30 +520,39 @@ func shortKind(k worldKind) string {
 	return "tags"
 }
 
+// twin replays the edits of the history without any Snapshot() on a fresh live
+// world over the same base: tells whether a live divergence involves snapshots.
+func (x *run) twinObservation() []byte {
+	w := newLive(x.kind, x.sp.base)
+	for _, o := range x.applied {
+		kit.Catch(func() { applyReal(w, o) })
+	}
+	return observe(w)
+}
+
 // check = one check point: every snapshot still answers as at creation; live equals the model.
 func (x *run) check() {
 	x.r.Evals++
 	x.r.States++
 	for i, sn := range x.snaps {
-		now := xdump(sn.w)
-		diffs := wk.Diff(sn.baseline, now, true)
-		if len(diffs) > 0 {
-			seen := map[string]bool{}
-			for _, d := range diffs {
-				c := sectionKind(d)
-				if seen[c] {
-					continue
-				}
-				seen[c] = true
-				x.r.Violate(fmt.Sprintf("snapshot-changed:%s:%s", shortKind(x.kind), c), "snapshot #%d of %s (taken after: %s) answers differently after later edits (A: at creation, B: now)\nhistory: %s\n%s", i+1, x.kind, sn.at, x.history(), strings.Join(diffs, "\n"))
+		now := observe(sn.w)
+		if diffs := transcriptDiff(sn.baseline, now); len(diffs) > 0 {
+			for _, k := range kinds(diffs) {
+				x.violate(fmt.Sprintf("snapshot-changed:%s:%s", shortKind(x.kind), k), "snapshot #%d of %s (taken after: %s) answers differently after later edits (A: at creation, B: now)\nhistory: %s\n%s", i+1, x.kind, sn.at, x.history(), strings.Join(diffs, "\n"))
 			}
 			x.r.AddOutcome("snapshot-changed")
 		}
 	}
-	liveDump := xdump(x.w)
-	x.compareRef(liveDump, "live", "live world")
-	if ps := liveDump.Panics(); len(ps) > 0 {
-		x.r.Violate("live-panic:"+shortKind(x.kind), "live %s panics\nhistory: %s\n%s", x.kind, x.history(), strings.Join(ps, "\n"))
+	obs := observe(x.w)
+	if v := compareWithModel(x.w, obs, x.m, x.kind); len(v.kinds) > 0 {
+		where := "also-without-snapshots"
+		if len(x.snaps) > 0 && !bytesEqual(x.twinObservation(), obs) {
+			where = "only-with-snapshots"
+		}
+		for _, k := range v.kinds {
+			x.violate(fmt.Sprintf("live:%s:%s:%s", shortKind(x.kind), where, k), "live %s differs from the reference model (A: real, B: reference); the same edits without Snapshot() calls give %s\nhistory: %s\nerrors returned: %v\n%s", x.kind, map[string]string{"also-without-snapshots": "the same live answers", "only-with-snapshots": "different live answers"}[where], x.history(), x.errs, v.text)
+		}
+		x.r.AddOutcome("live-differs")
 	}
 	if len(x.snaps) > 0 {
 		nt := "unchanged-since-snapshot"
@@ -593,11 +561,13 @@ func (x *run) check() {
 			x.r.Distinct++
 		}
 		x.r.AddOutcome(fmt.Sprintf("%s:snapshots=%d:%s", shortKind(x.kind), len(x.snaps), nt))
-		x.r.Keys = append(x.r.Keys, shortKind(x.kind)+dumpHash(x.snaps[len(x.snaps)-1].baseline)+dumpHash(liveDump))
+		x.r.Keys = append(x.r.Keys, shortKind(x.kind)+hash(x.snaps[len(x.snaps)-1].baseline)+hash(obs))
 	} else {
 		x.r.AddOutcome(shortKind(x.kind) + ":no-snapshot-yet")
 	}
 }
+
+func bytesEqual(a, b []byte) bool { return string(a) == string(b) }
 
 func (sp *space) ensureBase() {
 	sp.baseOnce.Do(func() {
@@ -607,7 +577,7 @@ func (sp *space) ensureBase() {
 		}
 		sp.base = w
 		sp.baseRef = &model{spec: baseSpec()}
-		sp.baseDump = xdump(w)
+		sp.baseObs = observe(w)
 	})
 }
 
@@ -622,7 +592,6 @@ func allZero(xs []int) bool {
 
 func (sp *space) Run(i int64) kit.Result {
 	var r kit.Result
-	r.Evals = 0
 	sp.ensureBase()
 	c := sp.cases[i]
 	ops := sp.ops[c.kind]
@@ -635,13 +604,14 @@ func (sp *space) Run(i int64) kit.Result {
 	}
 	post := make([]int, d)
 	post[0] = c.first
+	reported := map[string]bool{}
 	for sfx := 0; sfx < total; sfx++ {
 		y := sfx
 		for j := d - 1; j >= 1; j-- {
 			post[j] = y % n
 			y /= n
 		}
-		x := &run{r: &r, sp: sp, kind: c.kind, w: newLive(c.kind, sp.base), m: sp.baseRef.clone()}
+		x := &run{r: &r, sp: sp, kind: c.kind, w: newLive(c.kind, sp.base), m: sp.baseRef.clone(), reported: reported}
 		for _, pi := range c.pre {
 			x.step(ops[pi])
 		}
@@ -669,8 +639,8 @@ func (sp *space) Run(i int64) kit.Result {
 		}
 	}
 	// the read-only base must not have been changed by anything above
-	if diffs := wk.Diff(sp.baseDump, xdump(sp.base), true); len(diffs) > 0 {
-		r.Violate("base-changed:"+shortKind(c.kind), "the read-only base world answers differently after histories starting %v\n%s", c, strings.Join(diffs, "\n"))
+	if diffs := transcriptDiff(sp.baseObs, observe(sp.base)); len(diffs) > 0 {
+		r.Violate("base-changed:"+shortKind(c.kind), "the read-only base world answers differently after the histories of case %v\n%s", c, strings.Join(diffs, "\n"))
 	}
 	r.Nontrivial = r.Distinct > 0
 	if i%211 == 0 {
@@ -692,16 +662,17 @@ func main() {
 		Level: "model_checking",
 		Rule: "histories pre · Snapshot · post over the op alphabet (AddFeature new / replacing a base feature / replacing an overlay feature / path over a possibly missing point; AddTag and RemoveTag with #, @ and plain keys on a base point, a base path and an overlay-only point), pre of every length <= 2, post of exactly d ops with an optional second Snapshot before any post op; every prefix is checked once (at its all-first-op extension), so all shorter histories are covered. " +
 			"One case = (world type, pre, position of the second snapshot, first post op) and enumerates all remaining post ops. Non-trivial (counted in distinct) = a check point at which the reference model changed since the first snapshot. " +
-			"Oracle: each snapshot's extended worldkit dump (all sections + full rendering of every feature returned by every query + tokens) equals its dump at creation; live world dump equals worldkit.Ref of the edited feature list.",
+			"Oracle: each snapshot's transcript (the information of every worldkit dump section + full rendering of every feature returned by every query + tokens) equals its transcript at creation, and equals the live world's immediately before Snapshot(); live world's worldkit dump equals worldkit.Ref of the edited feature list.",
 		Assumptions: []string{
 			"the read-only base is one basic in-memory world shared by the histories of a worker (verified unchanged after every case)",
 			"MutableTagsOverlayWorld is documented not to update the search index, so find: sections of the live tags world are not compared with the model (snapshots of it are still compared with themselves on every section)",
 			"every point keeps a never-edited plain tag so the 'bare points are not indexed' rule never applies",
 			"error returns of edits are not part of the oracle, only the resulting answers",
+			"live-vs-model comparison is memoised per (model state, live transcript) within a worker; the transcript determines every worldkit dump section",
 		},
-		QuickDeadline:    240e9,
-		ThoroughDeadline: 30 * 60e9,
-		CaseTimeout:      600e9,
+		QuickDeadline:    300e9,
+		ThoroughDeadline: 40 * 60e9,
+		CaseTimeout:      900e9,
 		Build: func(tier string) (kit.Space, string) {
 			full := tier == "thorough"
 			depth := 2
